@@ -226,6 +226,10 @@ func BuildRoot(w *World, root string, lib *OpLib) {
 		// (v4, uelys/uusdc) enabled for leveraged LP — second accounted pool, second perpetual pool — with
 		// open positions of both modules in BOTH venues (t1 holds a perpetual position in each), locks expired
 		prefix = []string{"perp_open_long_t1", "perp_open_short_t2", "llp_open_t1_x3", "swap_in_p1_usdc_atom_L", "swap_in_p2_elys_usdc_L", "gap_1d", "mc_claim_lp1", "commit_eden_lp1", "vest_eden_lp1", "stake_elys_lp1", "v4_create_lp1", "cfg_llp_addpool_v4", "v4_perp_open_long_t1", "v4_perp_open_short_t3", "v4_llp_open_t2_x3", "v4_swap_in_usdc_elys_L", "gap_61m"}
+	case "R21":
+		// STRICT SAFETY FACTORS: R1 after governance doubled the safety factor of both position modules (opens that
+		// were fine under the defaults are now refused by the gates)
+		prefix = []string{"perp_open_long_t1", "perp_open_short_t2", "llp_open_t1_x3", "swap_in_p1_usdc_atom_L", "swap_in_p2_elys_usdc_L", "gap_1d", "mc_claim_lp1", "commit_eden_lp1", "vest_eden_lp1", "stake_elys_lp1", "cfgauto_leveragelp.MsgUpdateParams.Params.SafetyFactor=x2", "cfgauto_perpetual.MsgUpdateParams.Params.SafetyFactor=x2"}
 	case "R20":
 		// MANY BLOCKS: R3 (leveraged-LP sweep off, so nothing touches the open positions' debts) followed by
 		// 1000 ordinary blocks — counters, indices and "last touched at height" fields are a thousand blocks old
